@@ -344,7 +344,7 @@ class SSETransport(Transport):
             if not self._message_url and ("/messages/" in data or "/mcp" in data):
                 await self._handle_endpoint_event(data)
             # Check if it's JSON-RPC data
-            elif data.startswith("{") and '"jsonrpc"' in data:
+            elif data.startswith(("{", "[")) and '"jsonrpc"' in data:
                 await self._handle_message_event(data)
             else:
                 logger.debug(f"Unknown data: {data[:100]}...")
@@ -393,6 +393,25 @@ class SSETransport(Transport):
         """Handle a message event from SSE."""
         try:
             message_data = json.loads(data)
+            if isinstance(message_data, list):
+                # A JSON-RPC batch in one event: its members, in order
+                for member in message_data:
+                    if isinstance(member, dict):
+                        await self._handle_message_object(member)
+                    else:
+                        logger.error(f"Batch member is not an object: {member!r}")
+                return
+            await self._handle_message_object(message_data)
+
+        except json.JSONDecodeError as e:
+            logger.error(f"Failed to parse message JSON: {e}")
+            logger.debug(f"Raw data: {data[:200]}...")
+        except Exception as e:
+            logger.error(f"Error handling message event: {e}")
+
+    async def _handle_message_object(self, message_data: Dict[str, Any]) -> None:
+        """Handle one JSON-RPC message read from the event stream."""
+        try:
             logger.debug(
                 f"Received SSE message: {message_data.get('method', 'response')} (id: {message_data.get('id')})"
             )
@@ -426,9 +445,6 @@ class SSETransport(Transport):
             # If not a response to pending request, route to incoming stream
             await self._route_incoming_message(message_data)
 
-        except json.JSONDecodeError as e:
-            logger.error(f"Failed to parse message JSON: {e}")
-            logger.debug(f"Raw data: {data[:200]}...")
         except Exception as e:
             logger.error(f"Error handling message event: {e}")
 
@@ -524,7 +540,17 @@ class SSETransport(Transport):
 
                         # Route response to incoming stream; a body that is not a
                         # JSON-RPC message still has to end the request
-                        if not await self._route_incoming_message(response_data):
+                        # (a batch body: its members, in order)
+                        bodies = (
+                            response_data
+                            if isinstance(response_data, list)
+                            else [response_data]
+                        )
+                        routed_any = False
+                        for body in bodies:
+                            if await self._route_incoming_message(body):
+                                routed_any = True
+                        if not routed_any:
                             await self._route_incoming_message(
                                 {
                                     "jsonrpc": "2.0",
